@@ -1193,13 +1193,17 @@ def fam_clim(ctx, mods, r, k, cid):
     N = int(r.integers(2, 9))
     style = str(r.choice(["normal", "ar", "dyadic", "int"]))
     obs, tags = gen_data(r, T, N, style)
-    if r.random() < 0.15 and N >= 3 and T >= N + 6:
+    if r.random() < 0.15 and N >= 3 and T >= N + 6 and \
+            "const" not in tags and float(np.std(obs[:, 0])) > 1e-3:
         # nearly collinear series (smooth fields, duplicated stations):
         # correlation matrices with condition numbers of 1e3 .. 1e6
+        # (not on data sets with a constant column: a copy of a constant
+        #  plus 1e-12 noise is a degenerate series of its own, whose
+        #  histogram bins are decided by float32 rounding)
         dl = float(r.choice([3e-2, 1e-2, 3e-3]))
         obs = np.asarray(obs, float).copy()
-        obs[:, 1] = obs[:, 0] + dl * r.normal(size=T) * max(
-            1e-12, float(np.std(obs[:, 0])))
+        obs[:, 1] = obs[:, 0] + dl * r.normal(size=T) * float(
+            np.std(obs[:, 0]))
         tags = list(tags) + ["nearly-collinear"]
         ctx.count("clim_nearly_collinear")
     lat = [float(v) for v in r.integers(-80, 81, size=N)]
